@@ -245,8 +245,16 @@ def gen_spectrum(rng, bands, pol, big):
     nli = [rng.choice([0, rng.uniform(0, 0.1)]) for _ in range(n)]
     pmd = [rng.choice([0.0, 1e-12, 1e-12, 2.5e-12, rng.uniform(0, 5e-12)]) for _ in range(n)]
     pdl = [rng.choice([0.0, 0.1, 0.1, 0.45, rng.uniform(0, 2)]) for _ in range(n)]
+    # the order in which the carriers are handed over is free (the spectrum object sorts by frequency)
+    u = rng.random()
+    order = list(range(n))
+    if u < 0.5:
+        rng.shuffle(order)
+    elif u < 0.65:
+        order.reverse()
+    split = rng.randint(1, n - 1) if n >= 2 and rng.random() < 0.2 else None     # built as the sum of two spectra
     return {'f': f, 'baud': baud, 'slot': slot, 'delta': [float(d) for d in delta], 'pdbm': pdbm, 'ase': ase, 'nli': nli,
-            'pmd': pmd, 'pdl': pdl}
+            'pmd': pmd, 'pdl': pdl, 'order': order, 'split': split}
 
 
 def gen_case_A(rng, big=False):
@@ -401,27 +409,48 @@ def profiles_json(profiles):
 
 
 def make_si(sp):
+    """build the SpectralInformation from the carrier list in the order in which the case hands it over (sp['order'],
+    any permutation: SpectralInformation sorts by frequency itself), either in one go or as the sum of two spectra.
+    Returns the object and what was supplied PER CARRIER, sorted by frequency (the reference for everything else)."""
     import numpy as np
     from gnpy.core.info import create_arbitrary_spectral_information
-    pw = np.array([10 ** (p / 10) * 1e-3 for p in sp['pdbm']])
-    si = create_arbitrary_spectral_information(np.array(sp['f']), slot_width=np.array(sp['slot']), pch=pw,
-                                               baud_rate=np.array(sp['baud']), tx_osnr=40.0, tx_power=pw,
-                                               delta_pdb_per_channel=np.array(sp['delta']),
-                                               pmd=np.array(sp.get('pmd', [1e-12] * len(pw))),
-                                               pdl=np.array(sp.get('pdl', [0.1] * len(pw))))
-    si.add_ase(si.pch * np.array(sp['ase']))
-    si.add_nli(si.pch * np.array(sp['nli']))
-    return si
+    n = len(sp['f'])
+    cols = {k: list(sp[k]) for k in ('f', 'baud', 'slot', 'delta', 'pdbm', 'ase', 'nli')}
+    cols['pmd'] = list(sp.get('pmd', [1e-12] * n))
+    cols['pdl'] = list(sp.get('pdl', [0.1] * n))
+    order = list(sp.get('order') or range(n))
+
+    def build(idx):
+        pw = np.array([10 ** (cols['pdbm'][i] / 10) * 1e-3 for i in idx])
+        return create_arbitrary_spectral_information(
+            np.array([cols['f'][i] for i in idx]), slot_width=np.array([cols['slot'][i] for i in idx]), pch=pw,
+            baud_rate=np.array([cols['baud'][i] for i in idx]), tx_osnr=40.0, tx_power=pw,
+            delta_pdb_per_channel=np.array([cols['delta'][i] for i in idx]),
+            pmd=np.array([cols['pmd'][i] for i in idx]), pdl=np.array([cols['pdl'][i] for i in idx]))
+    k = sp.get('split')
+    si = build(order) if not k else build(order[:k]) + build(order[k:])
+    by_f = sorted(range(n), key=lambda i: cols['f'][i])
+    sup = {key: [float(cols[key][i]) for i in by_f] for key in cols}
+    si.add_ase(si.pch * np.array(sup['ase']))
+    si.add_nli(si.pch * np.array(sup['nli']))
+    sup['pin'] = [db(10 ** (p / 10) * (1 + a)) for p, a in zip(sup['pdbm'], sup['ase'])]
+    return si, sup
 
 
 def cross(roadm, x):
-    """one Roadm.__call__; returns the observation record"""
+    """one Roadm.__call__; returns the observation record.  Inputs (frequency, baud rate, slot width, offset, power,
+    pmd, pdl of each carrier) are recorded AS SUPPLIED per carrier, not as read back from the constructed object"""
     import numpy as np
-    si = make_si(x['spectrum'])
-    rec = {'f': [float(v) for v in si.frequency], 'baud': [float(v) for v in si.baud_rate],
-           'slot': [float(v) for v in si.slot_width], 'off': [float(v) for v in si.delta_pdb_per_channel],
-           'pin': [db(float(v) * 1e3) for v in si.pch],
-           'pmd_in': [float(v) for v in si.pmd], 'pdl_in': [float(v) for v in si.pdl]}
+    si, sup = make_si(x['spectrum'])
+    rec = {'f': sup['f'], 'baud': sup['baud'], 'slot': sup['slot'], 'off': sup['delta'], 'pin': sup['pin'],
+           'pmd_in': sup['pmd'], 'pdl_in': sup['pdl']}
+    held = {'f': si.frequency, 'baud': si.baud_rate, 'slot': si.slot_width, 'off': si.delta_pdb_per_channel,
+            'pmd_in': si.pmd, 'pdl_in': si.pdl, 'pin': [db(float(v) * 1e3) for v in si.pch]}
+    bad = [k for k in held if len(held[k]) != len(rec[k]) or
+           any(abs(float(a) - b) > 1e-9 * max(1.0, abs(b)) for a, b in zip(held[k], rec[k]))]
+    if bad:
+        rec['construction'] = f"the spectrum object does not hold, per carrier, what was supplied: {bad} " \
+                              f"(e.g. {bad[0]}: held {[float(v) for v in held[bad[0]]][:6]}, supplied {rec[bad[0]][:6]})"
     before = (si._signal_ratio.copy(), si._ase_ratio.copy(), si._nli_ratio.copy(), si.frequency.copy(),
               si.baud_rate.copy(), si.slot_width.copy(), si.pmd.copy(), si.pdl.copy())
     try:
@@ -603,11 +632,16 @@ def drive_L(case, rng_mod):
     obs['ref_in'] = {k: float(v) for k, v in roadm.ref_pch_in_dbm.items()}
     obs['ref_carrier'] = {'baud_rate': float(roadm.ref_carrier.baud_rate), 'slot_width': float(roadm.ref_carrier.slot_width)}
     # crossings: drawn here because they depend on what the design produced (degrees, paths)
-    view = dict(case, calls=calls, per_degree={PDEG[k]: obs['tables'][k] for k in range(3)},
+    view = dict(case, calls=configured_paths(case, obs), per_degree={PDEG[k]: obs['tables'][k] for k in range(3)},
                 policy={POL[k]: obs['node'][k] for k in range(3)})
     for seed in case['seeds']:
         r = rng_mod.Random(seed)
-        c = r.choice(calls) if (r.random() < 0.97 and calls) else {'from': 'trx A', 'to': 'trx A'}
+        chosen = [cc for cc in calls if any(i['from_degree'] == cc['from'] and i['to_degree'] == cc['to']
+                                            for i in case['per_degree_impairments'])]
+        if chosen and r.random() < 0.5:
+            c = r.choice(chosen)                  # a pair for which the user picked an impairment profile
+        else:
+            c = r.choice(calls) if (r.random() < 0.97 and calls) else {'from': 'trx A', 'to': 'trx A'}
         sp = gen_spectrum(r, path_bands(view, c['from'], c['to']), policy_in_force(view, c['to']), case.get('big', False))
         x = {'from': c['from'], 'deg': c['to'], 'spectrum': sp}
         obs['xs'].append(x)
@@ -615,11 +649,204 @@ def drive_L(case, rng_mod):
     return obs
 
 
+# ------------------------------------------------------------------ request-level stream (R)
+NODES_R = 'ABC'
+
+
+def gen_case_R(rng):
+    """a triangle of ROADMs with their own policies, a transceiver whose modes carry equalization offsets, and path
+    requests (automatic or imposed mode, uni/bidirectional) to be run through compute_path_with_disjunction"""
+    roadms = {}
+    for x in NODES_R:
+        k = rng.randrange(3)
+        others = [y for y in NODES_R if y != x]
+        roadms[x] = {'policy': {POL[k]: gen_policy_value(rng, POL[k], zero_ok=0.0)} if rng.random() < 0.8 else {},
+                     'per_degree': gen_per_degree(rng, [f'Edfa_booster_roadm {x}_to_fiber {x}{y}' for y in others], 0.3)}
+    eqk = rng.randrange(3)
+    profiles = []
+    for i, t in enumerate(['express', 'add', 'drop']):
+        if rng.random() < 0.6:
+            profiles.append({'id': i, 'type': t, 'bands': [{'lo': None, 'hi': None, 'maxloss': rng.choice([0, 3.5, 7.5, 11.5, 16.5]),
+                                                          'pmd': rng.choice([0, 1e-12]), 'pdl': rng.choice([0, 0.3])}]})
+    modes = []
+    for j in range(rng.randint(1, 4)):
+        br, sp = rng.choice([(32e9, 50e9), (32e9, 37.5e9), (64e9, 75e9), (42e9, 50e9)])
+        m = {'format': f'mode {j}', 'baud_rate': br, 'OSNR': rng.choice([8, 11, 15, 19, 24, 30]), 'bit_rate': rng.choice([100e9, 200e9]),
+             'roll_off': 0.15, 'tx_osnr': rng.choice([35, 40, 45]), 'min_spacing': sp, 'cost': 1}
+        if rng.random() < 0.8:
+            m['equalization_offset_db'] = rng.choice([0, 1, -1.5, 2.5, 3, -3, round(rng.uniform(-4, 4), 2)])
+        modes.append(m)
+    reqs = []
+    for j in range(rng.randint(1, 3)):
+        a, b = rng.sample(NODES_R, 2)
+        imposed = rng.choice(modes) if rng.random() < 0.3 else None
+        spacing = rng.choice([50e9, 75e9, 75e9, 100e9])
+        if imposed:
+            spacing = max(spacing, imposed['min_spacing'])          # an imposed mode needs at least its min_spacing
+        reqs.append({'id': f'r{j}', 'src': a, 'dst': b, 'via': rng.choice([y for y in NODES_R if y not in (a, b)]) if rng.random() < 0.3 else None,
+                     'mode': imposed['format'] if imposed else None, 'bidir': rng.random() < 0.75, 'spacing': spacing})
+    return {'kind': 'R', 'roadms': roadms, 'eq_policy': {POL[eqk]: gen_policy_value(rng, POL[eqk], zero_ok=0.0)},
+            'pmd': rng.choice([0, 1e-12]), 'pdl': rng.choice([0, 0.5]), 'profiles': profiles, 'modes': modes, 'requests': reqs,
+            'lengths': {a + b: rng.choice([20, 50, 80]) for a in NODES_R for b in NODES_R if a < b},
+            'f_max': rng.choice([192.1e12, 192.6e12, 193.1e12])}
+
+
+def topo_R(case):
+    els, cx = [], []
+    for x in NODES_R:
+        prm = dict(case['roadms'][x]['policy'])
+        prm.update(copy.deepcopy(case['roadms'][x]['per_degree']))
+        els += [{'uid': f'trx {x}', 'type': 'Transceiver'}, {'uid': f'roadm {x}', 'type': 'Roadm', 'type_variety': 'c06', 'params': prm}]
+        cx += [(f'trx {x}', f'roadm {x}'), (f'roadm {x}', f'trx {x}')]
+    for a in NODES_R:
+        for b in NODES_R:
+            if a != b:
+                els.append({'uid': f'fiber {a}{b}', 'type': 'Fiber', 'type_variety': 'SSMF',
+                            'params': {'length': case['lengths'][min(a, b) + max(a, b)], 'length_units': 'km', 'loss_coef': 0.2,
+                                       'con_in': None, 'con_out': None}})
+                cx += [(f'roadm {a}', f'fiber {a}{b}'), (f'fiber {a}{b}', f'roadm {b}')]
+    return {'elements': els, 'connections': [{'from_node': a, 'to_node': b} for a, b in cx]}
+
+
+def requests_R(case):
+    out = []
+    for r in case['requests']:
+        hops = ([f"roadm {r['via']}"] if r['via'] else []) + [f"trx {r['dst']}"]
+        tb = {'technology': 'flexi-grid', 'trx_type': 'c06trx', 'spacing': r['spacing'], 'path_bandwidth': 100e9}
+        if r['mode']:
+            tb['trx_mode'] = r['mode']
+        out.append({'request-id': r['id'], 'source': f"trx {r['src']}", 'destination': f"trx {r['dst']}",
+                    'src-tp-id': f"trx {r['src']}", 'dst-tp-id': f"trx {r['dst']}", 'bidirectional': r['bidir'],
+                    'path-constraints': {'te-bandwidth': tb},
+                    'explicit-route-objects': {'route-object-include-exclude': [
+                        {'explicit-route-usage': 'route-include-ero', 'index': i,
+                         'num-unnum-hop': {'node-id': h, 'link-tp-id': 'link-tp-id is not used', 'hop-type': 'STRICT'}}
+                        for i, h in enumerate(hops)]}})
+    return {'path-request': out}
+
+
+def drive_R(case):
+    """real path requests through compute_path_dsjctn / compute_path_with_disjunction; every Roadm.__call__ is observed
+    (per carrier input / output power and what the element reports), grouped by the propagation it belongs to"""
+    import numpy as np
+    import gnpy.core.elements as elements
+    import gnpy.topology.request as rq
+    from gnpy.tools import json_io
+    from gnpy.tools.worker_utils import designed_network
+    obs = {'stage': None, 'requests': []}
+    eq = dict(base_equipment())
+    eq['Roadm'] = dict(eq['Roadm'])
+    eq['Transceiver'] = dict(eq['Transceiver'])
+    entry = {'type_variety': 'c06', 'add_drop_osnr': 38, 'pmd': case['pmd'], 'pdl': case['pdl'],
+             'restrictions': copy.deepcopy(RESTR), 'roadm-path-impairments': profiles_json(case['profiles'])}
+    entry.update(case['eq_policy'])
+    events = []
+    orig_call, orig_prop, orig_auto = elements.Roadm.__call__, rq.propagate, rq.propagate_and_optimize_mode
+
+    def spy_call(self, spectral_info, degree, from_degree):
+        ev = {'roadm': self.uid, 'deg': degree, 'from': from_degree,
+              'f': [float(v) for v in spectral_info.frequency], 'baud': [float(v) for v in spectral_info.baud_rate],
+              'slot': [float(v) for v in spectral_info.slot_width], 'pin': [db(float(v) * 1e3) for v in spectral_info.pch],
+              'pmd_in': [float(v) for v in spectral_info.pmd], 'pdl_in': [float(v) for v in spectral_info.pdl],
+              'ref_in': {k: float(v) for k, v in self.ref_pch_in_dbm.items()}}
+        before = (spectral_info._signal_ratio.copy(), spectral_info._ase_ratio.copy(), spectral_info._nli_ratio.copy())
+        events.append(ev)
+        so = orig_call(self, spectral_info, degree=degree, from_degree=from_degree)
+        ev['out'] = [db(float(v) * 1e3) for v in so.pch]
+        ev['ratios_same'] = bool(np.array_equal(so._signal_ratio, before[0]) and np.array_equal(so._ase_ratio, before[1])
+                                 and np.array_equal(so._nli_ratio, before[2]) and len(so.frequency) == len(ev['f']))
+        ev['pch_out_attr'] = [float(v) for v in np.atleast_1d(self.pch_out_dbm)]
+        ev['loss_attr'] = [float(v) for v in np.atleast_1d(self.loss_pch_db)]
+        ev['ref_out'], ev['ref_loss'] = float(self.ref_pch_out_dbm), float(self.ref_effective_loss)
+        ev['pmd_out'], ev['pdl_out'] = [float(v) for v in so.pmd], [float(v) for v in so.pdl]
+        return so
+
+    def spy_prop(path, req, equipment):
+        events.append({'mark': 'propagate', 'req': req.request_id, 'src': path[0].uid,
+                       'n_roadms': sum(isinstance(e, elements.Roadm) for e in path)})
+        return orig_prop(path, req, equipment)
+
+    def spy_auto(path, req, equipment):
+        events.append({'mark': 'auto', 'req': req.request_id, 'src': path[0].uid,
+                       'n_roadms': sum(isinstance(e, elements.Roadm) for e in path)})
+        return orig_auto(path, req, equipment)
+    try:
+        trx = {'type_variety': 'c06trx', 'frequency': {'min': 191.35e12, 'max': case['f_max']}, 'mode': copy.deepcopy(case['modes'])}
+        eq['Transceiver']['c06trx'] = json_io.Transceiver(**trx)
+        eq['Roadm']['c06'] = json_io.Roadm(**entry)
+        net = json_io.network_from_json(topo_R(case), eq)
+        with warnings.catch_warnings():
+            warnings.simplefilter('ignore')
+            designed_network(eq, net)
+        from gnpy.topology.spectrum_assignment import build_oms_list
+        build_oms_list(net, eq)
+        rqs = json_io.requests_from_json(requests_R(case), eq)
+        pths = rq.compute_path_dsjctn(net, eq, rqs, [])
+        elements.Roadm.__call__, rq.propagate, rq.propagate_and_optimize_mode = spy_call, spy_prop, spy_auto
+        with warnings.catch_warnings():
+            warnings.simplefilter('ignore')
+            rq.compute_path_with_disjunction(net, eq, rqs, pths)
+    except Exception as e:
+        obs['stage'] = ('requests', type(e).__name__, str(e)[:200])
+        return obs
+    finally:
+        elements.Roadm.__call__, rq.propagate, rq.propagate_and_optimize_mode = orig_call, orig_prop, orig_auto
+    obs['ref_carrier'] = {'baud_rate': float(eq['SI']['default'].baud_rate), 'slot_width': float(eq['SI']['default'].spacing)}
+    # group the crossings: per request, the propagation in force in each direction
+    groups, cur = [], None
+    for ev in events:
+        if 'mark' in ev:
+            cur = dict(ev, crossings=[])
+            groups.append(cur)
+        elif cur is not None:
+            cur['crossings'].append(ev)
+    for r, req in zip(case['requests'], rqs):
+        mode = getattr(req, 'tsp_mode', None)
+        rec = {'id': r['id'], 'mode_in_force': mode, 'blocking': getattr(req, 'blocking_reason', None), 'passes': []}
+        for g in groups:
+            if g['req'] != r['id'] or not g['crossings'] or not g['n_roadms']:
+                continue
+            direction = 'A->Z' if g['src'] == f"trx {r['src']}" else 'Z->A'
+            # automatic mode selection propagates once per candidate baud rate / offset: the last pass is the one in force
+            rec['passes'].append({'direction': direction, 'kind': g['mark'], 'crossings': g['crossings'][-g['n_roadms']:],
+                                  'tried_before': len(g['crossings']) // g['n_roadms'] - 1})
+        obs['requests'].append(rec)
+    return obs
+
+
+def views_R(case, obs):
+    """for every observed crossing in force: the element-level configuration (as the user wrote it) it must obey, the
+    crossing descriptor and the observation record, in the shapes used by the element-level stream"""
+    out = []
+    offsets = {m['format']: m.get('equalization_offset_db', 0) for m in case['modes']}
+    for rec in obs['requests']:
+        if rec['mode_in_force'] not in offsets:
+            continue
+        off = float(offsets[rec['mode_in_force']])
+        for ps in rec['passes']:
+            for ev in ps['crossings']:
+                x = ev['roadm'][-1]
+                cfg = case['roadms'][x]
+                typ = 'add' if ev['from'].startswith('trx') else 'drop' if ev['deg'].startswith('trx') else 'express'
+                view = {'kind': 'A', 'policy': cfg['policy'] if cfg['policy'] else case['eq_policy'], 'per_degree': cfg['per_degree'],
+                        'pmd': case['pmd'], 'pdl': case['pdl'], 'profiles': case['profiles'],
+                        'calls': [{'from': ev['from'], 'to': ev['deg'], 'type': typ, 'id': None}],
+                        'ref_carrier': obs['ref_carrier'], 'ref_in': ev['ref_in'], 'crossings': []}
+                r2 = dict(ev, off=[off] * len(ev['f']))       # the offset of the mode in force, for every carrier
+                xd = {'from': ev['from'], 'deg': ev['deg']}
+                view['crossings'] = [xd]
+                out.append((view, xd, r2, f"request {rec['id']} {ps['direction']} ({ps['kind']}, mode {rec['mode_in_force']}, "
+                                          f"offset {off} dB) {ev['roadm']} {ev['from']}->{ev['deg']}"))
+    return out
+
+
 # ------------------------------------------------------------------ property oracle on the implementation's observations
 def oracle_crossing(view, x, rec, tag):
     """view: configuration in force (policy / per_degree / calls / profiles / ref_in / ref_carrier).
     Returns (failures, judged): failures = [(key, description)]"""
     fails = []
+    if 'construction' in rec:
+        fails.append(('spectrum_construction', f"{tag}: {rec['construction']}"))     # and go on judging against what was supplied
     bands = path_bands(view, x['from'], x['deg'])
     pol = policy_in_force(view, x['deg'])
     n = len(rec['f'])
@@ -702,6 +929,19 @@ def pdi_broken(case, obs):
     return False
 
 
+def configured_paths(case, obs):
+    """the internal paths the configuration asks for, read off the topology and per_degree_impairments only: express
+    between line degrees, drop towards / add from the transceiver degrees, each with the impairment id the user chose
+    for that (from, to) pair (the last entry for a pair counts), else none (= first library profile of that type)"""
+    chosen = {}
+    for i in case['per_degree_impairments']:
+        chosen[(i['from_degree'], i['to_degree'])] = i['impairment_id']
+    pairs = [(a, b, 'express') for a in obs['prev_oms'] for b in obs['next_oms']] \
+        + [(a, b, 'drop') for a in obs['prev_oms'] for b in obs['drops']] \
+        + [(a, b, 'add') for a in obs['adds'] for b in obs['next_oms']]
+    return [{'from': a, 'to': b, 'type': t, 'id': chosen.get((a, b))} for a, b, t in pairs]
+
+
 def oracle_L(case, obs):
     fails = []
     ep, ev = count_pol(case['eq_policy'])
@@ -746,6 +986,16 @@ def oracle_L(case, obs):
         for d, v in user.get(PDEG[k], {}).items():
             if obs['tables'][k].get(d) != v:
                 fails.append(('per_degree_population', f'user entry {PDEG[k]}[{d}]={v} not kept'))
+    # the impairment profile in force on every internal path is the configured one
+    reg = {}
+    for c in obs['calls']:
+        reg.setdefault((c['from'], c['to']), c)
+    for w in configured_paths(case, obs):
+        got = reg.get((w['from'], w['to']))
+        if got is None or got['type'] != w['type'] or got['id'] != w['id']:
+            fails.append(('impairment_in_force', f"internal path {w['from']} -> {w['to']}: configured {w['type']} with "
+                                                 f"impairment id {w['id']}, registered {got}"))
+            break
     return fails
 
 
@@ -989,9 +1239,41 @@ def run(ctx):
         na, nl, nbig = ctx.scale(400, 5000), ctx.scale(320, 4000), ctx.scale(5, 60)
         cases += [gen_case_A(rng) for _ in range(na)] + [gen_case_L(rng) for _ in range(nl)]
         cases += [gen_case_A(rng, big=True) for _ in range(nbig)] + [gen_case_L(rng, big=True) for _ in range(nbig)]
+        cases += [gen_case_R(rng) for _ in range(ctx.scale(24, 400))]
     terms, meta = [], []
     for c in cases:
         pub = strip(c)
+        if c['kind'] == 'R':
+            obs = drive_R(c)
+            ctx.count('R_cases')
+            if obs['stage']:
+                if obs['stage'][1] in ('ServiceError', 'DisjunctionError', 'ConfigurationError', 'EquipmentConfigError',
+                                       'NetworkTopologyError', 'ParametersError'):
+                    ctx.count('R_rejected_' + obs['stage'][1])         # the request / configuration was refused: nothing to judge
+                else:
+                    ctx.violation('request_flow_crash', f"{obs['stage'][1]}: {obs['stage'][2]}", pub)
+                ctx.case(pub, False)
+                continue
+            vs = views_R(c, obs)
+            for rec in obs['requests']:
+                ctx.count('R_requests')
+                ctx.count('R_request_' + ('auto_mode' if any(p['kind'] == 'auto' for p in rec['passes']) else 'imposed_mode'))
+                ctx.count('R_request_blocking_' + str(rec['blocking']))
+                ctx.count('R_passes_Z_to_A', sum(p['direction'] == 'Z->A' for p in rec['passes']))
+            to_model = set(ctx.rng.sample(range(len(vs)), min(len(vs), ctx.scale(5, 12))))     # oracle: all; model: a sample
+            for iv, (view, xd, rec, tag) in enumerate(vs):
+                ctx.count('R_crossings_in_force')
+                ctx.count('R_crossings_nonzero_mode_offset', int(rec['off'][0] != 0))
+                fails, judged = oracle_crossing(view, xd, rec, tag)
+                ctx.count('crossings_judged_by_oracle' if judged else 'crossings_config_broken_not_judged')
+                for key, desc in fails:
+                    ctx.violation(key, desc, pub)
+                if iv in to_model:
+                    t, ids = term_A(view, {'stage': None, 'crossings': [rec]})
+                    terms.append(t)
+                    meta.append((view, {'stage': None, 'crossings': [rec]}, ids, pub, tag))
+            ctx.case(pub, any(r['off'][0] != 0 for _, _, r, _ in vs))
+            continue
         if c['kind'] == 'A':
             obs = drive_A(c)
             xs = c['crossings']
@@ -1016,7 +1298,7 @@ def run(ctx):
             ctx.count('L_per_degree_impairments', len(c['per_degree_impairments']))
             view = None
             if obs['stage'] is None:
-                view = dict(c, calls=obs['calls'], per_degree={PDEG[k]: dict(obs['tables'][k]) for k in range(3)},
+                view = dict(c, calls=configured_paths(c, obs), per_degree={PDEG[k]: dict(obs['tables'][k]) for k in range(3)},
                             policy={POL[k]: obs['node'][k] for k in range(3)}, ref_in=obs['ref_in'],
                             ref_carrier=obs['ref_carrier'])
                 # the configuration in force must be the one the user wrote: judge crossings against the user's tables too
@@ -1051,20 +1333,28 @@ def run(ctx):
                 ctx.violation(key, desc, pub)
         ctx.case(pub, mixed or obs['stage'] is not None)
         terms.append(term)
-        meta.append((c, obs, ids))
+        meta.append((c, obs, ids, pub, ''))
     tag = f'cases{os.getpid()}'          # private to this process: concurrent runs of this check do not collide
+    per_file = max(12, len(terms) // ctx.scale(48, 300) + 1)
+    # balance the shards: deal the terms, largest first, round-robin over the files
+    nshard = -(-len(terms) // per_file) if terms else 1
+    by_size = sorted(range(len(terms)), key=lambda i: -len(terms[i]))
+    dealt = [i for k in range(nshard) for i in by_size[k::nshard]]
     try:
-        lines = common.coq_eval('C06', 'Prelude Model.Roadm Run.C06', terms,
-                                per_file=max(12, len(terms) // ctx.scale(48, 300) + 1), tag=tag, timeout=3000)
+        res = common.coq_eval('C06', 'Prelude Model.Roadm Run.C06', [terms[i] for i in dealt],
+                              per_file=per_file, tag=tag, timeout=3000)
+        lines = [None] * len(terms)
+        for i, ln in zip(dealt, res):
+            lines[i] = ln
     finally:
         wd = os.path.join(common.WORK, 'C06')
         for f in os.listdir(wd) if os.path.isdir(wd) else []:
             if f.startswith(tag + '_'):
                 os.unlink(os.path.join(wd, f))
-    for (c, obs, ids), line in zip(meta, lines):
+    for (c, obs, ids, pub, tag), line in zip(meta, lines):
         d = compare(c, obs, line, ids)
         if d:
-            ctx.corr_break(d[0], d[1], strip(c), impl=d[2], model=d[3])
+            ctx.corr_break(d[0], (tag + ': ' if tag else '') + d[1], pub, impl=d[2], model=d[3])
     ctx.assumptions += [
         'dB values of PSD / PSW targets, baud rates, slot widths and channel powers are computed by the harness with '
         'math.log10 (10·log10(psd) + 10·log10(baud/1e9) for a PSD target) and fed to the model as exact rationals',
